@@ -98,7 +98,8 @@ func (u *NetworkChannel) OpenConnection() (net.Conn, error) {
 
 // ------ // ------ // ------ // ------ // ------ // ------ // ------ //
 
-var ChannelRegex = regexp.MustCompile("^(/[a-z0-9_^/]*)->((tcp|udp|unix|unixgram|unixpacket):(.*))$")
+// ChannelRegex matches '<name>-><protocol>:<address>', e.g. 'ssh->tcp:127.0.0.1:22'
+var ChannelRegex = regexp.MustCompile("^([A-Za-z0-9_./-]+)->(tcp|unix|unixpacket):(//)?(.*)$")
 
 type Channels []Channel
 
@@ -156,7 +157,8 @@ func (chl *Channels) UnmarshalFlag(endpoint string) error {
 
 	parts := ChannelRegex.FindAllStringSubmatch(endpoint, -1)[0]
 
-	address, err := addr.ParseAddress(parts[1])
+	// parts: 0 = whole match, 1 = name, 2 = protocol, 3 = optional '//', 4 = address
+	address, err := addr.ParseAddress(parts[2] + "://" + parts[4])
 	if err != nil {
 		return err
 	}
@@ -164,7 +166,7 @@ func (chl *Channels) UnmarshalFlag(endpoint string) error {
 	e := &NetworkChannel{
 		AbstractChannel: AbstractChannel{
 			ProtoName: addr.ProtoName{
-				Name: parts[0],
+				Name: parts[1],
 			},
 			Address: *address,
 		},
